@@ -189,6 +189,11 @@ class FileTag(str):
     def __deepcopy__(self, memo):
         return self
 
+    def __bool__(self):
+        # a file name can be the empty string (parse(text) without a name, '# 1 ""'): code that tests a file name's
+        # truthiness forks here.  At most one tag is empty on a path (one z3 Int names it), so that a witness can be laid out.
+        return not E.cur().decide(z3.Int("fempty_idx") == self.i)
+
 
 # ---------------------------------------------------------------------------
 class SymInt:
